@@ -163,6 +163,11 @@ class Canon:
             l = self._resolve(e.left)
             if _is_int(l, -1) or (isinstance(l, ast.UnaryOp) and isinstance(l.op, ast.Invert) and _is_int(l.operand, 0)):
                 return ("mask", self.arith(e.right)), True
+        # -(1 << n) == -1 << n
+        if isinstance(e, ast.UnaryOp) and isinstance(e.op, ast.USub):
+            ex = _pow2_exp(self._resolve(e.operand))
+            if ex is not None:
+                return ("mask", self.arith(ex)), True
         return None
 
     def _leaf(self, e):
@@ -281,6 +286,9 @@ class Canon:
             if isinstance(e.op, ast.Invert):
                 return self.bits(e)
             if isinstance(e.op, (ast.USub, ast.UAdd)):
+                m = self._mask_form(e)
+                if m is not None and m[1]:
+                    return ("tt", (m[0],), 0b01)
                 return self.arith(e)
             if isinstance(e.op, ast.Not):
                 inner = self.term(e.operand)
